@@ -139,6 +139,45 @@ theorem dump_readlineslice_exact (B : Nat) (lim : Option Nat) (st : Rd) :
     (st.bytes.length + 2) [] [] st
   simpa [readLineSlice] using this
 
+/-- The accumulation loop always ends with a Go result (every `isPrefix` round consumes at least
+`B - 1 ≥ 1` bytes): the model's `stuck` marker is unreachable here too. `2 ≤ B` is needed —
+with a 1-byte buffer `bufio.ReadLine` itself would spin on a lone '\r'. -/
+theorem model_readlineslice_total (B : Nat) (hB : 2 ≤ B) (lim : Option Nat) (st : Rd)
+    (h : GoodErr st.err) :
+    (readLineSlice (dumpReadLine B) lim st).res ≠ .error .stuck := by
+  suffices hl : ∀ f acc d (st : Rd), GoodErr st.err → st.bytes.length + 1 ≤ f →
+      (readLineSliceLoop (dumpReadLine B) lim f acc d st).res ≠ .error .stuck from
+    hl _ [] [] st h (by omega)
+  intro f
+  induction f with
+  | zero => intro _ _ st _ hf; omega
+  | succ f ih =>
+    intro acc d st h hf
+    have hspec := dumpReadLine_spec B st h
+    have hex := dump_readline_exact B st
+    cases hrl : dumpReadLine B st with
+    | mk r p =>
+      cases p with
+      | mk st1 d1 =>
+        rw [hrl] at hspec hex
+        simp only at hspec hex
+        simp only [readLineSliceLoop, hrl]
+        split
+        · next e he =>
+          intro hc
+          simp only [Res.error.injEq] at hc
+          exact hspec.2.1 (he.trans (congrArg some hc))
+        · split
+          · simp
+          · split
+            · next hp =>
+              apply ih _ _ st1 hspec.1
+              have h1 := hspec.2.2 hp
+              have h2 := congrArg List.length hex
+              simp only [List.length_append] at h2
+              omega
+            · simp
+
 -- a 20-byte line through a 16-byte buffer, delivered in two reads
 example : (readLineSlice (dumpReadLine 16) none
       (Rd.ofSrc [⟨[88, 45, 65, 58, 32, 97, 97, 97, 97, 97], none⟩,
@@ -200,6 +239,27 @@ theorem dump_prog_exact {α : Type} (B : Nat) (p : Prog α) (hp : p.Accounted) (
       simp only [if_true]
       rw [ih _ (hp.2 e1)]
       simp [← hs]
+
+/-- A header line with one obs-fold continuation, read the way `readContinuedLineSlice` does:
+`readLine`, `skipSpace` (direct ReadByte access), `readLine`. -/
+def foldProg (B : Nat) : Prog (Bytes × Bytes × Bytes) :=
+  .line fun r1 => .eat (skipSpace B) fun sp => .line fun r2 => .ret (r1.line, sp, r2.line)
+
+/-- …is accounted (`skipSpace` returns exactly what it removed), so `dump_prog_exact` applies:
+after fixes/C13-2 the blanks eaten by `skipSpace` are in the dump. -/
+theorem foldProg_accounted (B : Nat) : (foldProg B).Accounted :=
+  fun _ => ⟨fun st => skipSpace_bytes B st, fun _ _ => trivial⟩
+
+theorem foldProg_dump_exact (B : Nat) (st : Rd) :
+    ((foldProg B).run (dumpReadLine B) true st []).2.2 ++
+      ((foldProg B).run (dumpReadLine B) true st []).2.1.bytes = st.bytes := by
+  simpa using dump_prog_exact B (foldProg B) (foldProg_accounted B) st []
+
+-- "A: b\r\n  c\r\nX": lines "A: b" and "c", two blanks eaten, all 11 consumed bytes dumped
+example : (foldProg 16).run (dumpReadLine 16) true
+      (Rd.ofSrc [⟨[65, 58, 32, 98, 13, 10, 32, 32, 99, 13, 10, 88], none⟩]) []
+    = (([65, 58, 32, 98], [32, 32], [99]), ⟨[88], none, []⟩,
+       [65, 58, 32, 98, 13, 10, 32, 32, 99, 13, 10]) := by decide
 
 /-! ### the closure as it stands in the pinned tree -/
 
